@@ -125,6 +125,7 @@ def run(res: Results, idx: Index, tier: str) -> None:
     res.control("R-C11a", "unguarded builder.Swish is unavailable somewhere in the claimed range", bool(ctrl_missing))
     _control_guard_engine(res, facts)
     rule_e(res, idx, cg, tier)
+    rule_g(res, idx)
     from .c03 import inherited_settings
     res.rule("R-C11f", "nested Loop / If / function scopes inherit the requested opset from an attribute that exists", floor=1)
     for site, key, status, detail, func, setting in inherited_settings(idx):
@@ -299,3 +300,74 @@ def rule_e(res: Results, idx: Index, cg, tier: str) -> None:
             res.add("R-C11e", inst.status, inst.site, f"{inst.rule}::{inst.key}", f"[C02 {inst.rule}] {inst.detail}", inst.func)
     res.analysed["opset_gated_passes"] = [g.qualname for g in gated]
     res.analysed["c02_instances_for_gated_passes"] = n
+
+
+# ---------------------------------------------------------------------------------------------- R-C11g
+# String attributes with a closed set of values (operator spec; frozen reference)
+_AUTO_PAD = {"NOTSET", "SAME_UPPER", "SAME_LOWER", "VALID"}
+_REDUCTION = {"none", "add", "mul", "max", "min"}
+ENUM_ATTRS = {
+    ("TensorScatter", "mode"): {"linear", "circular"},
+    ("Pad", "mode"): {"constant", "reflect", "edge", "wrap"},
+    ("Resize", "mode"): {"nearest", "linear", "cubic"},
+    ("Resize", "coordinate_transformation_mode"): {"half_pixel", "half_pixel_symmetric", "pytorch_half_pixel", "align_corners", "asymmetric", "tf_crop_and_resize"},
+    ("Resize", "nearest_mode"): {"round_prefer_floor", "round_prefer_ceil", "floor", "ceil"},
+    ("Resize", "keep_aspect_ratio_policy"): {"stretch", "not_larger", "not_smaller"},
+    ("ScatterND", "reduction"): _REDUCTION, ("ScatterElements", "reduction"): _REDUCTION,
+    ("DepthToSpace", "mode"): {"DCR", "CRD"},
+    ("Gelu", "approximate"): {"none", "tanh"},
+    ("GridSample", "mode"): {"linear", "nearest", "cubic", "bilinear", "bicubic"},
+    ("GridSample", "padding_mode"): {"zeros", "border", "reflection"},
+    ("BitShift", "direction"): {"LEFT", "RIGHT"},
+    ("Conv", "auto_pad"): _AUTO_PAD, ("ConvTranspose", "auto_pad"): _AUTO_PAD, ("MaxPool", "auto_pad"): _AUTO_PAD, ("AveragePool", "auto_pad"): _AUTO_PAD, ("LpPool", "auto_pad"): _AUTO_PAD,
+    ("LSTM", "direction"): {"forward", "reverse", "bidirectional"}, ("GRU", "direction"): {"forward", "reverse", "bidirectional"}, ("RNN", "direction"): {"forward", "reverse", "bidirectional"},
+    ("RoiAlign", "mode"): {"avg", "max"}, ("RoiAlign", "coordinate_transformation_mode"): {"half_pixel", "output_half_pixel"},
+}
+
+
+def rule_g(res: Results, idx: Index) -> None:
+    """Enumerated string attributes: a literal (or locally constant) value passed for an attribute with a closed value set
+    must be a member of that set — the checker only validates attribute NAMES against the schema, the runtime rejects the
+    value (or, worse, a permissive runtime picks its default)."""
+    import ast as _ast
+    from ..flow import defuse as _defuse
+    from ..index import dotted as _dotted, walk_no_nested as _wnn
+    res.rule("R-C11g", "literal values of enumerated string attributes are members of the operator's value set", floor=10)
+    n = 0
+    for m in idx.product_modules():
+        if "/plugins/" not in m.rel and "/converter/" not in m.rel:
+            continue
+        if ".examples" in m.name:
+            continue
+        for fi in m.funcs.values():
+            du = None
+            for c in _wnn(fi.node):
+                if not (isinstance(c, _ast.Call) and isinstance(c.func, _ast.Attribute) and c.func.attr[:1].isupper() and (_dotted(c.func.value) or "").lower().endswith("builder")):
+                    continue
+                op = c.func.attr
+                for k in c.keywords:
+                    if k.arg is None or (op, k.arg) not in ENUM_ATTRS:
+                        continue
+                    vals = []
+                    if isinstance(k.value, _ast.Constant) and isinstance(k.value.value, str):
+                        vals = [k.value.value]
+                    elif isinstance(k.value, _ast.Name):
+                        du = du or _defuse(fi.node)
+                        dv = [v for v in du.values(k.value.id) if v is not None]
+                        if dv and all(isinstance(v, _ast.Constant) and isinstance(v.value, str) for v in dv):
+                            vals = [v.value for v in dv]
+                        elif dv and all(isinstance(v, _ast.IfExp) and isinstance(v.body, _ast.Constant) and isinstance(v.orelse, _ast.Constant) for v in dv):
+                            vals = [x.value for v in dv for x in (v.body, v.orelse) if isinstance(x.value, str)]
+                    elif isinstance(k.value, _ast.IfExp) and isinstance(k.value.body, _ast.Constant) and isinstance(k.value.orelse, _ast.Constant):
+                        vals = [x.value for x in (k.value.body, k.value.orelse) if isinstance(x.value, str)]
+                    if not vals:
+                        continue
+                    n += 1
+                    key = f"{m.rel}::{fi.qualname}::{op}.{k.arg}"
+                    site = f"{m.rel}:{c.lineno}"
+                    bad = [v for v in vals if v not in ENUM_ATTRS[(op, k.arg)]]
+                    if bad:
+                        res.violation("R-C11g", site, key, f"{op}({k.arg}={bad[0]!r}): the operator only defines {sorted(ENUM_ATTRS[(op, k.arg)])}; the model carries an attribute value no runtime accepts", fi.qualname)
+                    else:
+                        res.ok("R-C11g", site, key, f"{k.arg} in {sorted(set(vals))}", fi.qualname)
+    res.analysed["enumerated_attribute_sites"] = n
